@@ -24,11 +24,13 @@ inductive Clause
   | crashOldOrNew     -- after a kill the file is neither the complete old nor the complete new version
   | writeLost         -- a write that ran to completion is not what the loader finds
   | modattrLoad       -- modified-attributes.conf does not load at start-up (every runtime modification is lost)
+  | stateInventory    -- an attribute the statement names is not a persisted (`[state]`) attribute of its type
   deriving Repr, DecidableEq
 
 def Clause.name : Clause → String
   | .restoreIdentity => "restoreIdentity" | .stateRoundtrip => "stateRoundtrip"
   | .crashOldOrNew => "crashOldOrNew" | .writeLost => "writeLost" | .modattrLoad => "modattrLoad"
+  | .stateInventory => "stateInventory"
 
 /-! ## (1) modify / restore -/
 
@@ -153,6 +155,63 @@ def specRestartConfig {N : Type} [DecidableEq N] (before after : JValue N) : Opt
       else some .stateRoundtrip
     | _, _ => some .stateRoundtrip
   | _, _ => if before = after then none else some .stateRoundtrip
+
+/-! ### The attributes the statement names
+
+  "All runtime state (states, attempts, check results, acknowledgements, downtime triggers, notification
+  bookkeeping, next check times)": the list is pinned here, per reflection type, independently of the
+  attribute flags of the code.  Two clauses use it: `specInventory` (every pinned attribute is a `[state]`
+  attribute of its type in the running binary — otherwise DumpObjects does not write it, whatever a comparison
+  of two `Serialize(…, FAState)` views says) and `specRestartPinned` (the value each pinned attribute has when
+  read through its getter is the same after the restart). -/
+
+def pinnedCheckable : List Key := [
+  "next_check", "check_attempt", "state_raw", "state_type", "last_state_raw", "last_hard_state_raw", "last_state_type",
+  "last_reachable", "last_check_result", "last_state_change", "last_hard_state_change", "last_state_unreachable",
+  "previous_state_change", "force_next_check", "acknowledgement", "acknowledgement_expiry", "acknowledgement_last_change",
+  "force_next_notification", "flapping", "flapping_current", "flapping_last_change", "suppressed_notifications",
+  "state_before_suppression", "executions"].map String.toList
+
+def pinnedTable : List (Key × List Key) := [
+  ("Host".toList, pinnedCheckable ++ ["last_state_up", "last_state_down"].map String.toList),
+  ("Service".toList, pinnedCheckable ++ ["last_state_ok", "last_state_warning", "last_state_critical", "last_state_unknown"].map String.toList),
+  ("Notification".toList, ["notified_problem_users", "no_more_notifications", "stashed_notifications", "last_notification",
+     "next_notification", "notification_number", "last_problem_notification", "suppressed_notifications",
+     "last_notified_state_per_user"].map String.toList),
+  ("Downtime".toList, ["trigger_time", "triggers", "remove_time"].map String.toList),
+  ("User".toList, ["last_notification"].map String.toList),
+  ("CheckResult".toList, ["schedule_start", "schedule_end", "execution_start", "execution_end", "command", "exit_status", "state",
+     "previous_hard_state", "output", "performance_data", "active", "check_source", "scheduling_source", "ttl", "vars_before",
+     "vars_after"].map String.toList)]
+
+/-- The pinned attributes of a reflection type (none for a type the statement does not name). -/
+def pinnedState (t : Key) : List Key :=
+  match pinnedTable.lookup t with
+  | some l => l
+  | none => []
+
+/-- `FAState` (lib/base/type.hpp:21). -/
+def faState : Nat := 4
+
+def hasFlag (flags bit : Nat) : Bool := flags / bit % 2 == 1
+
+/-- `inv` = the fields of reflection type `t` with their attribute bits as the running binary reports them
+    (`Type::GetFieldInfo`).  Every pinned attribute must be there and carry `FAState`. -/
+def specInventory (t : Key) (inv : List (Key × Nat)) : Option Clause :=
+  if (pinnedState t).all (fun a => match inv.lookup a with
+      | some fl => hasFlag fl faState
+      | none => false) then none
+  else some .stateInventory
+
+/-- `before`/`after` = the object's attributes read one by one through their getters (no attribute mask)
+    before the shutdown and after the start-up: every pinned attribute of type `t` is in the record and has the
+    identical value.  (As for `specRestartState`, nothing is demanded beyond the decoder's nesting limit.) -/
+def specRestartPinned {N : Type} [DecidableEq N] (t : Key) (before after : Dict N) : Option Clause :=
+  if Icinga.C20.depth (JValue.obj before) + 1 > Icinga.C20.jsonMaxNestingDepth then none
+  else if (pinnedState t).all (fun a => match dGet? a before with
+      | some v => decide (dGet? a after = some v)
+      | none => false) then none
+  else some .stateRoundtrip
 
 /-- The file the shutdown wrote must load at the next start. -/
 def specModattrLoad (loaded : Bool) : Option Clause := if loaded then none else some .modattrLoad
